@@ -6,7 +6,8 @@ FUNCTIONS = ['uxarray.grid.grid.Grid.face_areas',
     'uxarray.grid.grid.Grid.get_ball_tree',
     'uxarray.grid.grid.Grid.get_kd_tree',
     'uxarray.grid.grid.Grid.to_linecollection',
-    'uxarray.grid.grid.Grid.to_polycollection']
+    'uxarray.grid.grid.Grid.to_polycollection',
+    'uxarray.io._ugrid._encode_ugrid']
 STANDINS = ["histories"]
 ASSUMPTIONS = []
 EXPLANATION = ""
